@@ -4,6 +4,8 @@ import NloptModel.Model.RBTree
 import NloptModel.Model.Sobol
 import NloptModel.Model.WrapDriver
 import NloptModel.Model.Glue
+import NloptModel.Model.Slsqp
+import NloptModel.Model.Isres
 /-! `nlopt_model <stream>`: line-protocol driver.  Reads operation lines on stdin, prints one
     canonical result line per operation.  Arithmetic is the hardware's (through `Float`). -/
 open Nlopt
@@ -39,6 +41,26 @@ def glueStep (A : Arith) (u : Unit) (line : String) : Unit × String :=
     (u, WrapDrv.hexList r)
   | _ => (u, "bad-op")
 
+/-- S-inc stream: incumbent rules.  `reset`; `s <f> <feas> <infeas>` (SLSQP event); `i <f> <feas> <penalty> <gpenalty>` (ISRES
+    event); `end s` / `end i` print the incumbent: `<minf> <index of the accepted point or -> <feasible flag / penalty>` -/
+structure IncSt where
+  s : Slsqp.Inc := {}
+  i : Isres.Inc := {}
+  k : Nat := 0
+
+def incStep (st : IncSt) (line : String) : IncSt × String :=
+  let hx (t : String) : F64 := ((WrapDrv.parseList t).getD []).headD F64.zero
+  let pt (o : Option Nat) : String := match o with | some k => toString k | none => "-"
+  match (line.trimAscii.toString.splitOn " ").filter (· ≠ "") with
+  | ["reset"] => ({}, "")
+  | ["s", f, feas, infeas] =>
+    ({ st with s := Slsqp.update st.s { f := hx f, feas := feas == "1", infeas := hx infeas, pt := st.k }, k := st.k + 1 }, "")
+  | ["i", f, feas, pen, gpen] =>
+    ({ st with i := Isres.update st.i { f := hx f, feas := feas == "1", penalty := hx pen, gpenalty := hx gpen, pt := st.k }, k := st.k + 1 }, "")
+  | ["end", "s"] => (st, s!"{WrapDrv.hexList [st.s.minf]} {pt st.s.pt} {if st.s.feasible then 1 else 0}")
+  | ["end", "i"] => (st, s!"{WrapDrv.hexList [st.i.minf]} {pt st.i.pt} {WrapDrv.hexList [st.i.pen]}")
+  | _ => (st, "bad-op")
+
 partial def loop {σ : Type} (h : IO.FS.Stream) (out : IO.FS.Stream) (st : σ) (step : σ → String → σ × String) : IO Unit := do
   let line ← h.getLine
   if line.isEmpty then return ()
@@ -56,5 +78,6 @@ def main (args : List String) : IO UInt32 := do
   | ["sobol"] => loop stdin stdout Sobol.State.empty Sobol.sobolStep; return 0
   | ["wrap"] => loop stdin stdout ({} : WrapDrv.Rec) (WrapDrv.step nativeArith); return 0
   | ["glue"] => loop stdin stdout () (glueStep nativeArith); return 0
+  | ["inc"] => loop stdin stdout ({} : IncSt) incStep; return 0
   | ["stop"] => loop stdin stdout () (UtilDrv.stopStep nativeArith); return 0
   | _ => IO.eprintln "usage: nlopt_model <api|...>"; return 2
